@@ -239,6 +239,22 @@ THeard ==
   /\ full' = FullOf(ev) /\ tbl' = LiveSet(ev)
   /\ l' = l + 1 /\ UNCHANGED << mT, sT, lastFrame, lastHello, lastNi, lastIn >>
 
+(* the embedded entry point (os/esp32, os/linux embedded; beyond the listed properties, Check id "XEMB"): *)
+(* frames shorter than the demultiplex header are dropped; otherwise the RAW OPCODE is fed to the three  *)
+(* automata - mapping as in C14, session with the opcode in the place of a session event (the legacy     *)
+(* Reset edge from Complete is keyed on opcode 8), enumeration: Hello / new session / "complete".         *)
+SessRaw(s, op) == IF op = OpReset /\ s = Complete THEN Nascent ELSE IF op \in 0..7 THEN SessNext(s, op) ELSE s
+TEsp ==
+  LET ev == Log[l]
+      sraw == IF sT[ev.s0 + 1] # 0 /\ ev.nows - ev.sl0 > sT[ev.s0 + 1] THEN {Nascent, SessRaw(Nascent, ev.op)} ELSE {SessRaw(ev.s0, ev.op)}
+  IN /\ ev.e = "esp"
+     /\ Chk("XEMB") => IF ev.len < 32 THEN ev.m1 = ev.m0 /\ ev.s1 = ev.s0 /\ ev.e1 = ev.e0
+                        ELSE /\ ev.m1 \in MappingStep(ev.m0, ev.op, ev.nows - ev.ml0, mT)
+                             /\ ev.s1 \in sraw
+                             /\ ev.e1 = EnumNext(ev.e0, IF ev.op = OpHello THEN EnumHello ELSE IF ev.op = OpDiscover THEN EnumNewSession ELSE EnumComplete)
+     /\ (Primary = "XEMB" => TLCSet(2, TLCGet(2) \cup {<< ev.m0, ev.s0, ev.e0, ev.op >>}))
+     /\ l' = l + 1 /\ UNCHANGED << tbl, mT, sT, full, lastFrame, lastHello, lastNi, lastIn >>
+
 TClassify ==
   LET ev == Log[l] IN
   /\ ev.e = "classify"
@@ -273,7 +289,7 @@ TCtor ==
   /\ (Primary = "C18" => TLCSet(2, TLCGet(2) \cup {<< ev.which, ev.k, ev.null >>}))
   /\ l' = l + 1 /\ UNCHANGED << tbl, mT, sT, full, lastFrame, lastHello, lastNi, lastIn >>
 
-TraceNext == l <= Len(Log) /\ (Skip \/ TNew \/ TMStep \/ TSStep \/ TEStep \/ TTop \/ TTick \/ TGlue \/ THeard \/ TClassify \/ TBand \/ TCtor)
+TraceNext == l <= Len(Log) /\ (Skip \/ TNew \/ TMStep \/ TSStep \/ TEStep \/ TTop \/ TTick \/ TGlue \/ THeard \/ TClassify \/ TBand \/ TCtor \/ TEsp)
 TraceSpec == TraceInit /\ [][TraceNext]_vars
 
 ASSUME TLCSet(1, 0) /\ TLCSet(2, {})
